@@ -1,6 +1,6 @@
 (** C17 - proofs about the CBOR core model (CborCore.v): round trip for every well-formed value at
     any nesting depth, totality of the decoder, shortest heads, trailing data. *)
-From Coq Require Import NArith List Bool Lia.
+From Coq Require Import NArith PeanoNat List Bool Lia.
 From CB Require Import Cbor.CborCore.
 Import ListNotations.
 Local Open Scope N_scope.
@@ -39,12 +39,12 @@ Section ValueInd.
     | VText b => HText b
     | VArray i l =>
       HArray i l ((fix go (l : list value) : Forall P l :=
-                     match l with [] => Forall_nil _ | x :: r => Forall_cons _ (value_ind' x) (go r) end) l)
+                     match l return Forall P l with [] => Forall_nil _ | x :: r => Forall_cons _ (value_ind' x) (go r) end) l)
     | VMap i l =>
       HMap i l ((fix go (l : list (value * value)) : Forall (fun kv => P (fst kv) /\ P (snd kv)) l :=
-                   match l with
+                   match l return Forall (fun kv => P (fst kv) /\ P (snd kv)) l with
                    | [] => Forall_nil _
-                   | (k, x) :: r => Forall_cons _ (conj (value_ind' k) (value_ind' x)) (go r)
+                   | (k, x) :: r => Forall_cons (k, x) (conj (value_ind' k) (value_ind' x)) (go r)
                    end) l)
     | VTag t x => HTag t x (value_ind' x)
     | VBool b => HBool b
@@ -78,7 +78,7 @@ Qed.
 Lemma take_be_be_bytes : forall k n r, n < 256 ^ N.of_nat k -> take_be k 0 (be_bytes k n ++ r) = Some (n, r).
 Proof.
   intros. pose proof (take_be_app (be_bytes k n) 0 r) as T. rewrite be_bytes_length in T.
-  rewrite T, be_val_be_bytes by assumption. f_equal. f_equal. lia.
+  rewrite T, be_val_be_bytes by assumption. rewrite N.mul_0_l, N.add_0_l. reflexivity.
 Qed.
 
 (** * Heads *)
@@ -128,7 +128,7 @@ Proof.
   destruct (byte_split m info ltac:(lia)) as [D M]. rewrite D, M, PA.
   unfold hdr_of in Hh.
   destruct m as [|p]; [inversion Hh; reflexivity|].
-  do 3 (destruct p as [p|p|]; try discriminate); inversion Hh; reflexivity.
+  destruct p as [[[p|p|]|[p|p|]|]|[[p|p|]|[p|p|]|]|]; cbn in Hh; try discriminate Hh; inversion Hh; reflexivity.
 Qed.
 
 Lemma head_nonempty : forall m n, (1 <= length (head m n))%nat.
@@ -157,4 +157,309 @@ Proof.
   - reflexivity.
   - apply andb_true_iff in H. destruct H as [Hxy Hr].
     rewrite (IH Hr). cbn [insert_sorted]. rewrite Hxy. reflexivity.
+Qed.
+
+(** * Unfolding equations *)
+Definition enc_entry (kv : value * value) : list N := let '(k, x) := kv in encode k ++ encode x.
+
+Lemma encode_array : forall i l, encode (VArray i l) = head 4 (len l) ++ concat (map encode l).
+Proof. reflexivity. Qed.
+Lemma encode_map : forall i l, encode (VMap i l) = head 5 (len l) ++ concat (isort (map enc_entry l)).
+Proof. reflexivity. Qed.
+Lemma encode_tag : forall t v, encode (VTag t v) = head 6 t ++ encode v.
+Proof. reflexivity. Qed.
+
+Lemma dec_S : forall f bs, dec (S f) bs =
+  match pull bs with
+  | None => Err 0
+  | Some (h, r) =>
+    match h with
+    | HPos n => Ok (VPos n) r 0
+    | HNeg n => Ok (VNeg n) r 0
+    | HBytes (Some n) => radd (N.min n MAX_PRE) (rmap VBytes (read_seg false n r))
+    | HBytes None => rmap VBytes (segs f false 1 r)
+    | HText (Some n) => radd (N.min n MAX_PRE) (rmap VText (read_seg true n r))
+    | HText None => rmap VText (segs f true 1 r)
+    | HArray (Some n) => radd (VALUE_SIZE * N.min n cap_elems) (rmap (VArray false) (dec_elems f n r))
+    | HArray None => rmap (VArray true) (dec_elems_indef f r)
+    | HMap (Some n) => radd (2 * VALUE_SIZE * N.min n cap_elems) (rmap (VMap false) (dec_pairs f n r))
+    | HMap None => rmap (VMap true) (dec_pairs_indef f r)
+    | HTag t => rmap (VTag t) (dec f r)
+    | HSimple n => Ok (simple_value n) r 0
+    | HFloat w b => Ok (VFloat w b) r 0
+    | HBreak => Err 0
+    end
+  end.
+Proof. reflexivity. Qed.
+
+Lemma dec_elems_S : forall f n bs, dec_elems (S f) n bs =
+  if n =? 0 then Ok [] bs 0 else
+    match dec f bs with
+    | Ok v r a =>
+      match dec_elems f (n - 1) r with
+      | Ok l r' a' => Ok (v :: l) r' (a + VALUE_SIZE + a')
+      | Err a' => Err (a + VALUE_SIZE + a')
+      | OutOfFuel => OutOfFuel
+      end
+    | Err a => Err a
+    | OutOfFuel => OutOfFuel
+    end.
+Proof. reflexivity. Qed.
+
+Lemma dec_elems_0 : forall f bs, dec_elems f 0 bs = Ok [] bs 0.
+Proof. destruct f; reflexivity. Qed.
+
+Lemma dec_pairs_S : forall f n bs, dec_pairs (S f) n bs =
+  if n =? 0 then Ok [] bs 0 else
+    match dec f bs with
+    | Ok k r a =>
+      match dec f r with
+      | Ok x r1 a1 =>
+        match dec_pairs f (n - 1) r1 with
+        | Ok l r' a' => Ok ((k, x) :: l) r' (a + a1 + 2 * VALUE_SIZE + a')
+        | Err a' => Err (a + a1 + 2 * VALUE_SIZE + a')
+        | OutOfFuel => OutOfFuel
+        end
+      | Err a1 => Err (a + a1)
+      | OutOfFuel => OutOfFuel
+      end
+    | Err a => Err a
+    | OutOfFuel => OutOfFuel
+    end.
+Proof. reflexivity. Qed.
+
+Lemma dec_pairs_0 : forall f bs, dec_pairs f 0 bs = Ok [] bs 0.
+Proof. destruct f; reflexivity. Qed.
+
+(** * Round trip *)
+Lemma encode_nonempty : forall v, (1 <= length (encode v))%nat.
+Proof.
+  destruct v; try rewrite encode_array; try rewrite encode_map; try rewrite encode_tag;
+    cbn [encode]; try rewrite app_length;
+    try match goal with |- context [head ?m ?n] => pose proof (head_nonempty m n); lia end.
+  - cbn; lia.
+  - cbn; lia.
+  - unfold float_head. cbn [length]. lia.
+Qed.
+
+Definition RT (v : value) : Prop :=
+  value_okb v = true -> value_sortedb v = true ->
+  forall f r, (2 * length (encode v) < f)%nat -> exists a, dec f (encode v ++ r) = Ok v r a.
+
+Lemma len_cons_ne0 : forall {A} (x : A) l, (len (x :: l) =? 0) = false.
+Proof. intros. unfold len. cbn [length]. destruct (N.eqb_spec (N.of_nat (S (length l))) 0); [lia|reflexivity]. Qed.
+Lemma len_cons_pred : forall {A} (x : A) l, len (x :: l) - 1 = len l.
+Proof. intros. unfold len. cbn [length]. lia. Qed.
+
+Lemma rt_elems : forall l, Forall RT l -> forallb value_okb l = true -> forallb value_sortedb l = true ->
+  forall f r, (2 * length (concat (map encode l)) + 1 < f)%nat ->
+  exists a, dec_elems f (len l) (concat (map encode l) ++ r) = Ok l r a.
+Proof.
+  induction l as [|x l IH]; intros HF Hok Hso f r Hf.
+  - exists 0. cbn [map concat app]. apply dec_elems_0.
+  - inversion HF as [|? ? Hx Hl]; subst.
+    cbn [forallb] in Hok, Hso. apply andb_true_iff in Hok, Hso. destruct Hok as [Hokx Hokl], Hso as [Hsox Hsol].
+    cbn [map concat] in *. rewrite app_length in Hf. pose proof (encode_nonempty x) as Hne.
+    destruct f as [|f]; [lia|].
+    rewrite dec_elems_S, len_cons_ne0, len_cons_pred, <- app_assoc.
+    destruct (Hx Hokx Hsox f (concat (map encode l) ++ r) ltac:(lia)) as [a Ea]. rewrite Ea.
+    destruct (IH Hl Hokl Hsol f r ltac:(lia)) as [a' Ea']. rewrite Ea'. eexists; reflexivity.
+Qed.
+
+Lemma rt_pairs : forall l, Forall (fun kv => RT (fst kv) /\ RT (snd kv)) l ->
+  forallb (fun kv => let '(k, x) := kv in value_okb k && value_okb x) l = true ->
+  forallb (fun kv => let '(k, x) := kv in value_sortedb k && value_sortedb x) l = true ->
+  forall f r, (2 * length (concat (map enc_entry l)) + 1 < f)%nat ->
+  exists a, dec_pairs f (len l) (concat (map enc_entry l) ++ r) = Ok l r a.
+Proof.
+  induction l as [|[k x] l IH]; intros HF Hok Hso f r Hf.
+  - exists 0. cbn [map concat app]. apply dec_pairs_0.
+  - inversion HF as [|? ? [Hk Hx] Hl]; subst. cbn [fst snd] in Hk, Hx.
+    cbn [forallb] in Hok, Hso. apply andb_true_iff in Hok, Hso. destruct Hok as [Hokx Hokl], Hso as [Hsox Hsol].
+    apply andb_true_iff in Hokx, Hsox. destruct Hokx as [Hok1 Hok2], Hsox as [Hso1 Hso2].
+    cbn [map concat enc_entry] in *. rewrite !app_length in Hf.
+    pose proof (encode_nonempty k) as Hne1. pose proof (encode_nonempty x) as Hne2.
+    destruct f as [|f]; [lia|].
+    rewrite dec_pairs_S, len_cons_ne0, len_cons_pred, <- !app_assoc.
+    destruct (Hk Hok1 Hso1 f (encode x ++ concat (map enc_entry l) ++ r) ltac:(lia)) as [a Ea]. rewrite Ea.
+    destruct (Hx Hok2 Hso2 f (concat (map enc_entry l) ++ r) ltac:(lia)) as [a1 Ea1]. rewrite Ea1.
+    destruct (IH Hl Hokl Hsol f r ltac:(lia)) as [a' Ea']. rewrite Ea'. eexists; reflexivity.
+Qed.
+
+Lemma pull_simple_byte : forall n r, n < 24 -> pull ((7 * 32 + n) :: r) = Some (HSimple n, r).
+Proof.
+  intros. unfold pull. destruct (byte_split 7 n ltac:(lia)) as [D M]. rewrite D, M.
+  unfold pull_arg, classify. destruct (N.ltb_spec n 24); [|lia]. destruct (N.ltb_spec n 25); [reflexivity|lia].
+Qed.
+
+Lemma simple_value_other : forall n, in_range 20 22 n = false -> simple_value n = VSimple n.
+Proof.
+  intros n H. unfold in_range in H. unfold simple_value.
+  destruct (N.eqb_spec n 20); [subst; discriminate|]. destruct (N.eqb_spec n 21); [subst; discriminate|].
+  destruct (N.eqb_spec n 22); [subst; discriminate|]. reflexivity.
+Qed.
+
+Theorem roundtrip_all : forall v, RT v.
+Proof.
+  induction v using value_ind'; unfold RT; intros Hok Hso f r Hf; (destruct f as [|f]; [lia|]); rewrite dec_S.
+  - (* VPos *) cbn [value_okb] in Hok. apply N.ltb_lt in Hok. cbn [encode].
+    rewrite (pull_head 0 n r (HPos n) Hok eq_refl). eexists; reflexivity.
+  - cbn [value_okb] in Hok. apply N.ltb_lt in Hok. cbn [encode].
+    rewrite (pull_head 1 n r (HNeg n) Hok eq_refl). eexists; reflexivity.
+  - (* VBytes *) cbn [value_okb] in Hok. apply andb_true_iff in Hok. destruct Hok as [_ Hl]. apply N.ltb_lt in Hl.
+    cbn [encode]. rewrite <- app_assoc. rewrite (pull_head 2 (len b) (b ++ r) _ Hl eq_refl).
+    unfold read_seg. rewrite take_app. cbn [andb rmap radd]. eexists; reflexivity.
+  - (* VText *) cbn [value_okb] in Hok. apply andb_true_iff in Hok. destruct Hok as [Hok Hl]. apply N.ltb_lt in Hl.
+    apply andb_true_iff in Hok. destruct Hok as [_ Hu].
+    cbn [encode]. rewrite <- app_assoc. rewrite (pull_head 3 (len b) (b ++ r) _ Hl eq_refl).
+    unfold read_seg. rewrite take_app, Hu. cbn [andb negb rmap radd]. eexists; reflexivity.
+  - (* VArray *) cbn [value_okb] in Hok. apply andb_true_iff in Hok. destruct Hok as [Hok Hall].
+    apply andb_true_iff in Hok. destruct Hok as [Hi Hl]. apply N.ltb_lt in Hl. destruct i; [discriminate|].
+    cbn [value_sortedb] in Hso.
+    rewrite encode_array in *. rewrite <- app_assoc. rewrite (pull_head 4 (len l) _ _ Hl eq_refl).
+    rewrite app_length in Hf. pose proof (head_nonempty 4 (len l)).
+    destruct (rt_elems l H Hall Hso f r ltac:(lia)) as [a Ea]. rewrite Ea. cbn [rmap radd]. eexists; reflexivity.
+  - (* VMap *) cbn [value_okb] in Hok. apply andb_true_iff in Hok. destruct Hok as [Hok Hall].
+    apply andb_true_iff in Hok. destruct Hok as [Hi Hl]. apply N.ltb_lt in Hl. destruct i; [discriminate|].
+    cbn [value_sortedb] in Hso. apply andb_true_iff in Hso. destruct Hso as [Hsorted Hso].
+    rewrite encode_map in *. fold enc_entry in Hsorted. rewrite (isort_sorted _ Hsorted) in *.
+    rewrite <- app_assoc. rewrite (pull_head 5 (len l) _ _ Hl eq_refl).
+    rewrite app_length in Hf. pose proof (head_nonempty 5 (len l)).
+    destruct (rt_pairs l H Hall Hso f r ltac:(lia)) as [a Ea]. rewrite Ea. cbn [rmap radd]. eexists; reflexivity.
+  - (* VTag *) cbn [value_okb] in Hok. apply andb_true_iff in Hok. destruct Hok as [Ht Hok]. apply N.ltb_lt in Ht.
+    cbn [value_sortedb] in Hso. rewrite encode_tag in *. rewrite <- app_assoc.
+    rewrite (pull_head 6 t _ _ Ht eq_refl). rewrite app_length in Hf. pose proof (head_nonempty 6 t).
+    destruct (IHv Hok Hso f r ltac:(lia)) as [a Ea]. rewrite Ea. cbn [rmap]. eexists; reflexivity.
+  - (* VBool *) destruct b; cbn [encode app]; eexists; reflexivity.
+  - (* VNull *) cbn [encode app]. eexists; reflexivity.
+  - (* VSimple *) cbn [value_okb] in Hok. apply andb_true_iff in Hok. destruct Hok as [Hn Hr]. apply N.ltb_lt in Hn.
+    apply negb_true_iff in Hr. cbn [encode]. unfold head.
+    destruct (N.ltb_spec n 24).
+    + cbn [app]. rewrite pull_simple_byte by assumption. rewrite simple_value_other by assumption. eexists; reflexivity.
+    + destruct (N.ltb_spec n 256); [|lia]. cbn [app].
+      change (7 * 32 + 24) with 248.
+      assert (E : pull (248 :: n :: r) = Some (HSimple n, r)).
+      { unfold pull. change (248 / 32) with 7. change (248 mod 32) with 24. unfold pull_arg.
+        change (24 <? 24) with false. change (24 =? 24) with true. cbv iota. cbn [take_be].
+        rewrite N.mul_0_l, N.add_0_l. reflexivity. }
+      rewrite E, simple_value_other by assumption. eexists; reflexivity.
+  - (* VFloat *) cbn [value_okb] in Hok. apply andb_true_iff in Hok. destruct Hok as [Hw Hb]. apply N.ltb_lt in Hb.
+    cbn [encode]. unfold float_head.
+    apply orb_true_iff in Hw. destruct Hw as [Hw|Hw]; [apply orb_true_iff in Hw; destruct Hw as [Hw|Hw]|];
+      apply N.eqb_eq in Hw; subst w.
+    + change (2 =? 2) with true. cbv iota. change (N.to_nat 2) with 2%nat. cbn [app].
+      unfold pull. change (249 / 32) with 7. change (249 mod 32) with 25. unfold pull_arg.
+      change (25 <? 24) with false. change (25 =? 24) with false. change (25 =? 25) with true. cbv iota.
+      rewrite take_be_be_bytes by (change (256 ^ N.of_nat 2) with (2 ^ (8 * 2)); assumption).
+      eexists; reflexivity.
+    + change (4 =? 2) with false. change (4 =? 4) with true. cbv iota. change (N.to_nat 4) with 4%nat. cbn [app].
+      unfold pull. change (250 / 32) with 7. change (250 mod 32) with 26. unfold pull_arg.
+      change (26 <? 24) with false. change (26 =? 24) with false. change (26 =? 25) with false.
+      change (26 =? 26) with true. cbv iota.
+      rewrite take_be_be_bytes by (change (256 ^ N.of_nat 4) with (2 ^ (8 * 4)); assumption).
+      eexists; reflexivity.
+    + change (8 =? 2) with false. change (8 =? 4) with false. cbv iota. change (N.to_nat 8) with 8%nat. cbn [app].
+      unfold pull. change (251 / 32) with 7. change (251 mod 32) with 27. unfold pull_arg.
+      change (27 <? 24) with false. change (27 =? 24) with false. change (27 =? 25) with false.
+      change (27 =? 26) with false. change (27 =? 27) with true. cbv iota.
+      rewrite take_be_be_bytes by (change (256 ^ N.of_nat 8) with (2 ^ (8 * 8)); assumption).
+      eexists; reflexivity.
+Qed.
+
+(** * Top-level statements *)
+Lemma wfb_split : forall v, value_wfb v = true -> value_okb v = true /\ value_sortedb v = true.
+Proof. intros v H. unfold value_wfb in H. apply andb_true_iff in H. exact H. Qed.
+
+Theorem decode_encode_prefix : forall v rest, value_wfb v = true ->
+  exists a, decode_prefix (encode v ++ rest) = Ok v rest a.
+Proof.
+  intros v rest H. destruct (wfb_split v H) as [Hok Hso]. unfold decode_prefix, fuel_for.
+  apply (roundtrip_all v Hok Hso). rewrite app_length. lia.
+Qed.
+
+Theorem decode_encode_top : forall v, value_wfb v = true -> exists a, decode_top (encode v) = Ok v [] a.
+Proof.
+  intros v H. destruct (decode_encode_prefix v [] H) as [a E]. rewrite app_nil_r in E.
+  exists a. unfold decode_top. rewrite E. reflexivity.
+Qed.
+
+Theorem decode_trailing_rejected : forall v b rest, value_wfb v = true ->
+  exists a, decode_top (encode v ++ b :: rest) = Err a.
+Proof.
+  intros v b rest H. destruct (decode_encode_prefix v (b :: rest) H) as [a E].
+  exists a. unfold decode_top. rewrite E. reflexivity.
+Qed.
+
+(** [cbor_decode] accepts only if the decoder consumed the whole input *)
+Theorem decode_top_consumes_all : forall bs v r a, decode_top bs = Ok v r a -> r = [] /\ decode_prefix bs = Ok v [] a.
+Proof.
+  intros bs v r a H. unfold decode_top in H. destruct (decode_prefix bs) as [v' r' a'| |]; try discriminate.
+  destruct r'; inversion H; subst. split; reflexivity.
+Qed.
+
+(** the encoding is injective and prefix-free on well-formed values *)
+Theorem encode_prefix_free : forall v1 v2 r1 r2, value_wfb v1 = true -> value_wfb v2 = true ->
+  encode v1 ++ r1 = encode v2 ++ r2 -> v1 = v2 /\ r1 = r2.
+Proof.
+  intros v1 v2 r1 r2 H1 H2 E.
+  destruct (decode_encode_prefix v1 r1 H1) as [a1 E1]. destruct (decode_encode_prefix v2 r2 H2) as [a2 E2].
+  rewrite E in E1. rewrite E1 in E2. inversion E2. split; reflexivity.
+Qed.
+
+Corollary encode_injective : forall v1 v2, value_wfb v1 = true -> value_wfb v2 = true ->
+  encode v1 = encode v2 -> v1 = v2.
+Proof.
+  intros v1 v2 H1 H2 E. apply (encode_prefix_free v1 v2 [] [] H1 H2). rewrite E. reflexivity.
+Qed.
+
+(** * Shortest heads: the head written by the encoder is never longer than any accepted head
+    carrying the same header. *)
+Lemma take_be_consumes : forall k acc bs n r, take_be k acc bs = Some (n, r) -> length bs = (k + length r)%nat.
+Proof.
+  induction k; intros acc bs n r H; cbn [take_be] in H.
+  - inversion H; subst. reflexivity.
+  - destruct bs as [|b bs']; [discriminate|]. apply IHk in H. cbn [length]. lia.
+Qed.
+
+Lemma take_be_bound : forall k acc bs n r, take_be k acc bs = Some (n, r) -> Forall (fun b => b < 256) bs ->
+  n < (acc + 1) * 256 ^ N.of_nat k.
+Proof.
+  induction k; intros acc bs n r H HB; cbn [take_be] in H.
+  - inversion H; subst. change (N.of_nat 0) with 0. rewrite N.pow_0_r. lia.
+  - destruct bs as [|b bs']; [discriminate|]. inversion HB; subst.
+    apply IHk in H; [|assumption].
+    assert (E : N.of_nat (S k) = N.succ (N.of_nat k)) by lia. rewrite E, N.pow_succ_r'. nia.
+Qed.
+
+Lemma head_length : forall m n, length (head m n) =
+  if n <? 24 then 1%nat else if n <? 256 then 2%nat else if n <? 65536 then 3%nat
+  else if n <? 4294967296 then 5%nat else 9%nat.
+Proof.
+  intros. unfold head. repeat match goal with |- context [if ?c then _ else _] => destruct c end;
+    cbn [length]; rewrite ?be_bytes_length; reflexivity.
+Qed.
+
+(** any accepted head with argument [n] is at least as long as the head the encoder writes *)
+Theorem head_shortest : forall info r n r' m, Forall (fun b => b < 256) r ->
+  pull_arg info r = Some (Some n, r') -> (length (head m n) + length r' <= 1 + length r)%nat.
+Proof.
+  intros info r n r' m HB H. rewrite head_length. unfold pull_arg in H.
+  destruct (N.ltb_spec info 24).
+  { inversion H; subst. destruct (N.ltb_spec n 24); lia. }
+  repeat match type of H with
+  | (if ?c then _ else _) = _ => destruct c
+  end; try discriminate;
+  match type of H with
+  | match take_be ?k 0 r with _ => _ end = _ =>
+    destruct (take_be k 0 r) as [[n' r'']|] eqn:T; [|discriminate]; inversion H; subst;
+    pose proof (take_be_consumes _ _ _ _ _ T) as L; pose proof (take_be_bound _ _ _ _ _ T HB) as Bd
+  end.
+  - change (256 ^ N.of_nat 1) with 256 in Bd.
+    destruct (N.ltb_spec n 24); [lia|]. destruct (N.ltb_spec n 256); lia.
+  - change (256 ^ N.of_nat 2) with 65536 in Bd.
+    destruct (N.ltb_spec n 24); [lia|]. destruct (N.ltb_spec n 256); [lia|]. destruct (N.ltb_spec n 65536); lia.
+  - change (256 ^ N.of_nat 4) with 4294967296 in Bd.
+    destruct (N.ltb_spec n 24); [lia|]. destruct (N.ltb_spec n 256); [lia|]. destruct (N.ltb_spec n 65536); [lia|].
+    destruct (N.ltb_spec n 4294967296); lia.
+  - repeat match goal with |- context [if ?c then _ else _] => destruct c end; lia.
 Qed.
